@@ -37,6 +37,7 @@ type Evidence struct {
 	byGran     map[string]int
 	byMode     map[string]int
 	byTasks    map[int]int
+	opCounts   map[string]map[string]int
 	Divergent  int
 	LoadRaces  int
 	ProbeN     int
@@ -51,7 +52,7 @@ type Evidence struct {
 
 func newEvidence(tier string, seed uint64, b *Build) *Evidence {
 	return &Evidence{tier: tier, seed: seed, build: b, Faults: map[string]int{}, sigs: map[string]bool{}, allSigs: map[string]bool{},
-		sites: map[int]bool{}, pairs: map[int]bool{}, byStrat: map[string]int{}, byGran: map[string]int{}, byMode: map[string]int{}, byTasks: map[int]int{}}
+		sites: map[int]bool{}, pairs: map[int]bool{}, byStrat: map[string]int{}, byGran: map[string]int{}, byMode: map[string]int{}, byTasks: map[int]int{}, opCounts: map[string]map[string]int{}}
 }
 
 func (e *Evidence) addBatch(r *BatchResult) {
@@ -117,6 +118,14 @@ func (e *Evidence) addBatch(r *BatchResult) {
 		}
 		for _, p := range r.End.Pairs {
 			e.pairs[p] = true
+		}
+		for op, m := range r.End.OpCounts {
+			if e.opCounts[op] == nil {
+				e.opCounts[op] = map[string]int{}
+			}
+			for k, n := range m {
+				e.opCounts[op][k] += n
+			}
 		}
 	}
 }
@@ -186,6 +195,7 @@ func (e *Evidence) write(path string) error {
 			"yield_sites_not_reached":            unhit,
 			"inflight_op_pairs_reached":          len(e.pairs),
 			"inflight_op_pair_space":             e.numLabels * e.numLabels,
+			"executed_operations_by_kind":        e.opCounts,
 			"runs_by_strategy":                   e.byStrat,
 			"runs_by_granularity":                e.byGran,
 			"runs_by_mode":                       e.byMode,
